@@ -87,17 +87,23 @@ def _execute_dispatch_names(ctx) -> Set[str]:
 
 
 def _fanout_function(ctx):
-    """The module-level function registered as the statement-execution hook."""
+    """The module-level function registered as the statement-execution hook; when no registration exists (that is
+    C53-R5's finding) the module-level function that iterates the execute chooser."""
     init, regs = _hook_registrations(ctx)
     names = _execute_dispatch_names(ctx)
     cands = [(c, i, t) for c, i, t in regs if i in names]
-    ctx.require(cands, "ShardedSession.__init__ registers no listener for the statement-execution event "
-                       f"({sorted(names)}); cannot locate the fan-out hook")
-    t = cands[0][2]
-    ctx.require(isinstance(t, ast.Name), f"hook target `{unparse(t)}` is not a plain function name")
-    r = ctx.index.resolve(init.module, t.id)
-    ctx.require(getattr(r, "node", None) is not None and isinstance(r.node, (ast.FunctionDef, ast.AsyncFunctionDef)),
-                f"hook target `{t.id}` does not resolve to a function")
+    if cands:
+        t = cands[0][2]
+        ctx.require(isinstance(t, ast.Name), f"hook target `{unparse(t)}` is not a plain function name")
+        r = ctx.index.resolve(init.module, t.id)
+        ctx.require(getattr(r, "node", None) is not None and isinstance(r.node, (ast.FunctionDef, ast.AsyncFunctionDef)),
+                    f"hook target `{t.id}` does not resolve to a function")
+    else:
+        fs = [fi for fi in ctx.index.all_functions(init.module) if fi.cls is None
+              and any(_last(call_name(c)) == "execute_chooser" for c in calls_in(fi.node))]
+        ctx.require(len(fs) == 1, "no statement-execution listener is registered and no single module-level function iterates "
+                                  "the execute chooser; cannot locate the fan-out hook")
+        r = fs[0]
     ctx.functions_analysed.add(r.key)
     return r
 
@@ -110,6 +116,9 @@ def _shard_bind_param(ctx) -> str:
         if isinstance(n, ast.Subscript) and isinstance(n.ctx, ast.Load) and (dotted(n.value) or "").endswith("__shards") \
                 and isinstance(n.slice, ast.Name):
             names.add(n.slice.id)
+        if isinstance(n, ast.Call) and isinstance(n.func, ast.Attribute) and n.func.attr in ("get", "__getitem__") \
+                and (dotted(n.func.value) or "").endswith("__shards") and n.args and isinstance(n.args[0], ast.Name):
+            names.add(n.args[0].id)
     names &= set(gb.params)
     ctx.require(len(names) == 1, f"cannot tell which get_bind parameter indexes the shard table: {sorted(names)}")
     return names.pop()
@@ -479,10 +488,13 @@ def r3(ctx):
     fan = _Fan(ctx)
     F, g, loop = fan.F, fan.g, fan.loop
     pm = F.module.parents()
-    # S: the name whose None-ness guards the chooser loop
-    cand = [t[: -len(" is None")] for t, pol in guard_atoms(g.edge_guards(loop.id)) if pol and t.endswith(" is None")]
-    cand = [c for c in cand if c.isidentifier()]
-    ctx.require(len(cand) == 1, f"{F.key}: the chooser loop is not guarded by exactly one `<name> is None` test ({cand})")
+    # S: the local that receives the explicitly requested shard (anchor: the identity token of the active options)
+    cand = sorted({nm for nm, v, st in name_stores(F.node) if v is not None and not isinstance(st, (ast.For, ast.AsyncFor))
+                   and any(isinstance(x, ast.Attribute) and x.attr == "_identity_token" for x in ast.walk(v))})
+    if not cand:
+        cand = sorted({t[: -len(" is None")] for t, pol in guard_atoms(g.edge_guards(loop.id)) if pol and t.endswith(" is None")
+                       and t[: -len(" is None")].isidentifier()})
+    ctx.require(len(cand) == 1, f"{F.key}: cannot tell which local holds the explicitly requested shard ({cand})")
     S = cand[0]
     assigns = [(v, st) for nm, v, st in name_stores(F.node) if nm == S and v is not None and not isinstance(st, (ast.For, ast.AsyncFor))]
     ps = PathSense(g)
@@ -531,7 +543,7 @@ def r3(ctx):
                   f"{S} = <{name}>; not None -> chooser bypassed", loc_of(F, hits[0][1]), w)
     # known shard -> executed on it
     known = test_edges(g, lambda t, p: t == f"{S} is None" and p is False)
-    ctx.require(known, f"no `{S} is not None` branch in {F.key}")
+    ctx.require(known, f"no branch in {F.key} is taken only when `{S} is not None`")
     ex = fan.exec_nodes(S)
     # restrict to executions that are not inside the chooser loop (same variable name may be reused as loop target)
     body = [b for b, lab in g.succ[loop.id] if lab == "true"]
@@ -581,34 +593,52 @@ def r4(ctx):
         return test_edges(g, lambda t, p: t == atom_txt and p is True)
 
     # (a) persistent
-    e_key = branch(f"{st}.key")
-    ctx.require(e_key, f"no `if {st}.key` branch")
-    after = g.reachable([b for _, _, b in e_key], edge_ok=no_exc)
-    rets = _returns_in(g, after)
-    w = g.witness([b for _, _, b in e_key], chooser, edge_ok=no_exc)
-    good = bool(rets) and w is None
-    detail = ""
-    for n in rets:
-        v = g.nodes[n].stmt.value
-        v = _through_local(ca.node, v)
-        if not (isinstance(v, ast.Subscript) and dotted(v.value) == f"{st}.key" and isinstance(v.slice, ast.Constant) and v.slice.value in (tix, tix - 3)):
-            good = False
-            detail = f"returns `{unparse(g.nodes[n].stmt.value)}` which is not element {tix} (the identity token) of {st}.key; "
-    ctx.check(good, ca.key + ":persistent-object-keeps-its-shard",
-              detail + "an object that already has an identity key is not routed to the shard recorded in that key "
-              "(an UPDATE/DELETE for an object loaded from shard 'a' whose chooser attributes changed goes to another shard; the row in 'a' stays)",
-              f"{st}.key -> {st}.key[{tix}]", ca.loc, g.describe_path(w) if w else None)
+    e_key = branch(f"{st}.key") + test_edges(g, lambda t, p: t == f"{st}.key is None" and p is False)
+    reads = {x.attr for x in walk_local(ca.node) if isinstance(x, ast.Attribute) and isinstance(x.value, ast.Name) and x.value.id == st}
+    if not e_key and not ({"key", "identity_key"} & reads):
+        ctx.violation(ca.key + ":persistent-object-keeps-its-shard",
+                      f"_choose_shard_and_assign never looks at `{st}.key`: an object that already has an identity key is re-routed by the "
+                      "shard chooser (an UPDATE/DELETE for an object loaded from shard 'a' whose chooser attributes changed goes to another "
+                      "shard; the row in 'a' stays)", ca.loc)
+        e_key = None
+    else:
+        ctx.require(e_key, f"no `if {st}.key` branch (idiom not understood)")
+    if e_key is not None:
+        after = g.reachable([b for _, _, b in e_key], edge_ok=no_exc)
+        rets = _returns_in(g, after)
+        w = g.witness([b for _, _, b in e_key], chooser, edge_ok=no_exc)
+        good = bool(rets) and w is None
+        detail = ""
+        for n in rets:
+            v = g.nodes[n].stmt.value
+            v = _through_local(ca.node, v)
+            if not (isinstance(v, ast.Subscript) and dotted(v.value) == f"{st}.key" and isinstance(v.slice, ast.Constant) and v.slice.value in (tix, tix - 3)):
+                good = False
+                detail = f"returns `{unparse(g.nodes[n].stmt.value)}` which is not element {tix} (the identity token) of {st}.key; "
+        ctx.check(good, ca.key + ":persistent-object-keeps-its-shard",
+                  detail + "an object that already has an identity key is not routed to the shard recorded in that key "
+                  "(an UPDATE/DELETE for an object loaded from shard 'a' whose chooser attributes changed goes to another shard; the row in 'a' stays)",
+                  f"{st}.key -> {st}.key[{tix}]", ca.loc, g.describe_path(w) if w else None)
     # (b) pending with token
-    e_tok = branch(f"{st}.identity_token")
-    ctx.require(e_tok, f"no `{st}.identity_token` branch")
-    after = g.reachable([b for _, _, b in e_tok], edge_ok=no_exc)
-    rets = _returns_in(g, after)
-    w = g.witness([b for _, _, b in e_tok], chooser, edge_ok=no_exc)
-    good = bool(rets) and w is None and all(dotted(_through_local(ca.node, g.nodes[n].stmt.value)) == f"{st}.identity_token" for n in rets)
-    ctx.check(good, ca.key + ":assigned-token-is-reused",
-              "an object whose identity token was already assigned is routed by something else than that token "
-              "(get_bind() during flush and the later INSERT may disagree about the shard)",
-              f"{st}.identity_token -> returned", ca.loc, g.describe_path(w) if w else None)
+    e_tok = branch(f"{st}.identity_token") + test_edges(g, lambda t, p: t == f"{st}.identity_token is None" and p is False)
+    tok_reads = [x for x in walk_local(ca.node) if isinstance(x, ast.Attribute) and isinstance(x.ctx, ast.Load)
+                 and dotted(x) == f"{st}.identity_token"]
+    if not e_tok and not tok_reads:
+        ctx.violation(ca.key + ":assigned-token-is-reused",
+                      f"_choose_shard_and_assign never reads `{st}.identity_token`: a pending object whose shard was already chosen is "
+                      "chosen again on every call (get_bind() during flush and the later INSERT may disagree about the shard)", ca.loc)
+        e_tok = None
+    else:
+        ctx.require(e_tok, f"no `{st}.identity_token` branch (idiom not understood)")
+    if e_tok is not None:
+        after = g.reachable([b for _, _, b in e_tok], edge_ok=no_exc)
+        rets = _returns_in(g, after)
+        w = g.witness([b for _, _, b in e_tok], chooser, edge_ok=no_exc)
+        good = bool(rets) and w is None and all(dotted(_through_local(ca.node, g.nodes[n].stmt.value)) == f"{st}.identity_token" for n in rets)
+        ctx.check(good, ca.key + ":assigned-token-is-reused",
+                  "an object whose identity token was already assigned is routed by something else than that token "
+                  "(get_bind() during flush and the later INSERT may disagree about the shard)",
+                  f"{st}.identity_token -> returned", ca.loc, g.describe_path(w) if w else None)
     # (c) chooser result recorded and returned
     res = set()
     for n in chooser:
@@ -774,7 +804,7 @@ def r6(ctx):
               f"for {lv} in identity_chooser(..): super()._identity_lookup(identity_token={lv})", f.loc, w if isinstance(w, list) else None)
     # (c) first hit returned
     res = set()
-    for n in lk:
+    for n in (lk or [x for x in all_lookups if x in in_loop]):
         s_ = g.nodes[n].stmt
         if isinstance(s_, (ast.Assign, ast.AnnAssign)):
             tg = s_.targets[0] if isinstance(s_, ast.Assign) else s_.target
@@ -895,7 +925,7 @@ R.mutant("benign-fanout-logging-and-direct-append", HS,
                     "            util.warn_limited(\"shard %s\", (sid,)) if False else None\n"
                     "            partial.append(iter_for_shard(sid))\n"), None)
 R.mutant("benign-per-shard-reordered", HS,
-         sub("        bind_arguments = dict(orm_context.bind_arguments)\n        bind_arguments[\"shard_id\"] = shard_id\n"
+         sub("        bind_arguments = dict(orm_context.bind_arguments)\n        bind_arguments[\"shard_id\"] = shard_id\n\n"
              "        orm_context.update_execution_options(identity_token=shard_id)\n",
              "        orm_context.update_execution_options(identity_token=shard_id)\n"
              "        bind_arguments = dict(orm_context.bind_arguments, shard_id=shard_id)\n"), None)
